@@ -93,6 +93,9 @@ structure TaskDefn where
   firstParentless : Option Int
   completion : CE
   outputs : List OutDef
+  execRetries : Nat := 0                    -- number of `execution retry delays`
+  subRetries : Nat := 0                     -- number of `submission retry delays`
+  hasAbs : Bool := false                    -- `TaskDef.has_abs_triggers`
   deriving Repr, Inhabited
 
 structure Graph where
@@ -124,6 +127,9 @@ structure Proxy where
   pre : List Pre := []
   sui : List Pre := []
   upd : Bool := false                       -- TaskState.is_updated
+  execTry : Nat := 0                        -- try_timers[EXECUTION_RETRY].num
+  subTry : Nat := 0                         -- try_timers[SUBMISSION_RETRY].num
+  retryWait : Bool := false                 -- an unsatisfied `_cylc_retry` / `_cylc_submit_retry` xtrigger
   deriving Repr, Inhabited
 
 structure Hist where                        -- a removed instance as recorded in the DB
@@ -131,6 +137,7 @@ structure Hist where                        -- a removed instance as recorded in
   name : String
   status : Status
   submitNum : Nat
+  done : List String := []                  -- completed output messages (`task_outputs` table)
   deriving Repr, Inhabited
 
 structure Msg where
@@ -152,6 +159,7 @@ structure State where
   queue : List Msg := []                    -- Scheduler.message_queue
   launched : List (Int × String × Nat) := []  -- launches of the current op
   polls : List (Int × String) := []           -- polls requested in the current op
+  absDone : List Atom := []                   -- `abs_outputs_done`
   db : Option (List Proxy) := none            -- `task_pool` DB table as committed by the latest main loop
   ghosts : List Proxy := []                   -- proxies removed during the current op (`transient` objects
                                               -- still referenced by the message batch being processed)
@@ -219,11 +227,30 @@ def mkProxy (g : Graph) (name : String) (p : Int) : Option Proxy := do
   let d ← t.inst? p
   pure { pt := p, name := name, pre := d.pre, sui := d.sui }
 
-/-- `spawn_task` (single flow, no history revival): not re-spawned when the DB records it -/
+/-- `spawn_task` (single flow): consult the DB history of the instance, then build the proxy -/
 def spawnTask (g : Graph) (s : State) (name : String) (p : Int) : Option Proxy :=
-  if s.hist.any (fun h => h.pt == p && h.name == name) then none
-  else if p < g.start then none           -- warm start: pre-start instances count as run
-  else mkProxy g name p
+  let hist := (s.hist.filter fun h => h.pt == p && h.name == name).getLast?
+  if hist.isNone && p < g.start then none           -- warm start: pre-start instances count as run
+  else match mkProxy g name p with
+    | none => none
+    | some x =>
+      let revived : Option Proxy :=
+        match hist with
+        | none => some x
+        | some h =>
+          if h.done.isEmpty then none                 -- "task was removed" (suicide leaves no outputs)
+          else
+            let y := { x with status := h.status, submitNum := h.submitNum, done := h.done }
+            if h.status.isFinal then
+              match g.task? name with
+              | some t => if isComplete t h.done then none else some y    -- finished and complete: not re-run
+              | none => none
+            else some y
+      revived.map fun y =>
+        -- satisfy absolute triggers from the record of completed absolute outputs
+        match g.task? name with
+        | some t => if t.hasAbs && !y.prereqsSatisfied then s.absDone.foldl (fun z a => z.satisfyMe a) y else y
+        | none => y
 
 /-- `get_or_spawn_task` + `add_to_pool` as used by parentless spawning -/
 def spawnAndAdd (g : Graph) (s : State) (name : String) (p : Int) : State :=
@@ -301,7 +328,7 @@ def releaseRunaheadN (g : Graph) : Nat → State → State
 /-! ### Queueing and release -/
 
 def Proxy.isReadyToRun (x : Proxy) : Bool :=
-  !x.held && x.status == .waiting && x.prereqsSatisfied
+  !x.held && x.status == .waiting && x.prereqsSatisfied && !x.retryWait
 
 /-- `queue_if_ready` -/
 def queueIfReady (s : State) (x : Proxy) : State :=
@@ -336,7 +363,7 @@ def releaseAndSubmit (s : State) : State :=
 def remove (g : Graph) (s : State) (x : Proxy) : State :=
   let s := if !x.flows.isEmpty && x.runahead then spawnNextParentless g s x else s
   { s with pool := s.pool.filter (fun y => !(y.pt == x.pt && y.name == x.name)),
-           hist := s.hist ++ [⟨x.pt, x.name, x.status, x.submitNum⟩],
+           hist := s.hist ++ [⟨x.pt, x.name, x.status, x.submitNum, x.done⟩],
            ghosts := s.ghosts ++ [x] }
 
 /-- `remove_if_complete` -/
@@ -353,20 +380,46 @@ def childrenOf (g : Graph) (x : Proxy) (out : String) : List Child :=
     | some (_, cs) => cs
     | none => []
 
-/-- `spawn_on_output` (no absolute triggers, no suicide in this stage) -/
+def Proxy.suicideNow (x : Proxy) : Bool := !x.sui.isEmpty && x.sui.all Pre.isSatisfied
+
+/-- one child of `spawn_on_output`: record an absolute output, find or spawn the child, satisfy the
+prerequisite (for an absolute trigger: of every pooled instance of the child task), collect suicides -/
+def spawnChild (g : Graph) (p : Int) (n out : String) (acc : State × List (Int × String)) (c : Child) :
+    State × List (Int × String) :=
+  let (st, sui) := acc
+  let atom : Atom := ⟨p, n, out⟩
+  let st := if c.isAbs && !st.absDone.contains atom then { st with absDone := st.absDone ++ [atom] } else st
+  let inPool := (st.get? c.pt c.name).isSome
+  let child : Option Proxy :=
+    match st.get? c.pt c.name with
+    | some y => some y
+    | none => spawnTask g st c.name c.pt
+  match child with
+  | none => (st, sui)
+  | some y =>
+    let st := if inPool then st else st.add (y.satisfyMe atom)
+    let targets : List (Int × String) :=
+      if c.isAbs then
+        let others := (st.pool.filter fun z => z.name == c.name).map fun z => (z.pt, z.name)
+        if others.contains (c.pt, c.name) then others else others ++ [(c.pt, c.name)]
+      else [(c.pt, c.name)]
+    targets.foldl (fun (a : State × List (Int × String)) k =>
+      match a.1.get? k.1 k.2 with
+      | none => a
+      | some z =>
+        let z := z.satisfyMe atom
+        (a.1.put z, if z.suicideNow && !a.2.contains k then a.2 ++ [k] else a.2)) (st, sui)
+
+/-- `spawn_on_output` -/
 def spawnOnOutput (g : Graph) (s : State) (p : Int) (n : String) (out : String) : State :=
   match s.get? p n with
   | none => s
   | some x =>
     let cs := if x.flows.isEmpty then [] else childrenOf g x out
-    let s := cs.foldl (fun (st : State) c =>
-        let atom : Atom := ⟨p, n, out⟩
-        match st.get? c.pt c.name with
-        | some y => st.put (y.satisfyMe atom)
-        | none =>
-          match spawnTask g st c.name c.pt with
-          | some y => st.add (y.satisfyMe atom)
-          | none => st) s
+    let (s, suicides) := cs.foldl (spawnChild g p n out) (s, [])
+    let s := suicides.foldl (fun (st : State) k => match st.get? k.1 k.2 with
+      | some z => remove g st z
+      | none => st) s
     match s.get? p n with
     | some x' => removeIfComplete g s x'
     | none => s
@@ -414,6 +467,8 @@ def processMessage (g : Graph) : Nat → State → Int → String → Flag → N
     | some (x, tr) =>
       -- _process_message_check (a transient object skips the checks)
       if !tr && flag == .received && sn != x.submitNum then (s, false) else
+      -- a waiting task with a retry lined up ignores (late) messages
+      if !tr && x.status == .waiting && x.submitNum > 0 && (x.subTry > 0 || x.execTry > 0) then (s, false) else
       -- complete the corresponding output
       let (x, completed) :=
         if msg == "submit-failed" || msg == "failed" then (x, some false)
@@ -429,20 +484,32 @@ def processMessage (g : Graph) : Nat → State → Int → String → Flag → N
       | some (x, tr) =>
       if msg == "started" then
         if flag == .received && x.status.rank > Status.running.rank then (s, true) else
-        let s := store s (x.reset (status := some .running)) tr
+        -- submission was successful: the submission try number is reset
+        let s := store s { (x.reset (status := some .running)) with subTry := 0 } tr
         (spawnChildren g s p n "started" tr, false)
       else if msg == "succeeded" then
         let s := store s (x.reset (status := some .succeeded)) tr
         (spawnChildren g s p n "succeeded" tr, false)
       else if msg == "failed" then
         if flag == .received && x.status.rank > Status.failed.rank then (s, true) else
-        -- no retries in this stage: definitive failure
+        let maxTry := match g.task? n with | some t => t.execRetries | none => 0
+        if x.submitNum > 0 && x.execTry < maxTry then
+          -- an execution retry is lined up: back to waiting behind a retry xtrigger
+          let y := { (x.reset (status := some .waiting)) with execTry := x.execTry + 1, retryWait := true }
+          (store s y tr, false)
+        else
+        -- definitive failure
         let y := x.reset (status := some .failed)
         let (y, _) := if x.status != .failed then setComplete g y "failed" else (y, none)
         let s := store s y tr
         (spawnChildren g s p n "failed" tr, false)
       else if msg == "submit-failed" then
         if flag == .received && x.status.rank > Status.submitFailed.rank then (s, true) else
+        let maxTry := match g.task? n with | some t => t.subRetries | none => 0
+        if x.submitNum > 0 && x.subTry < maxTry then
+          let y := { (x.reset (status := some .waiting)) with subTry := x.subTry + 1, retryWait := true }
+          (store s y tr, false)
+        else
         let y := x.reset (status := some .submitFailed)
         let (y, _) := if x.status != .submitFailed then setComplete g y "submit-failed" else (y, none)
         let s := store s y tr
@@ -516,7 +583,12 @@ def clearOp (s : State) : State := { s with launched := [], polls := [], ghosts 
 /-- the queue-if-ready sweep over waiting, unqueued, released proxies -/
 def sweepQueue (s : State) : State :=
   s.pool.foldl (fun st x => match st.get? x.pt x.name with
-    | some y => if y.status == .waiting && !y.queued && !y.runahead then queueIfReady st y else st
+    | some y =>
+      if y.status == .waiting && !y.queued && !y.runahead then
+        -- zero-delay retry clock triggers are satisfied by the time of the next sweep
+        let y := { y with retryWait := false }
+        queueIfReady (st.put y) y
+      else st
     | none => st) s
 
 /-- end of the main loop: updated flags, DB commit of the task pool, stall check -/
